@@ -26,7 +26,7 @@ type RecCron struct {
 	// registration (what the built-in cron's closure does); otherwise the location
 	// is resolved by name at tick time (what an external cron's HTTP call does).
 	ViaInstance bool
-	Resolve   func(ctx *core.Context, location string) (*core.Location, error)
+	Resolve     func(ctx *core.Context, location string) (*core.Location, error)
 }
 
 type RecJob struct {
